@@ -745,6 +745,20 @@ func (sg *skGen) genInvalidHistory() {
 			sg.ensureValues(1)
 			sg.line("q 1 %s", hexF(q))
 		}
+		if r.Bool(15) {
+			// the batch query: an invalid quantile at any position (first, middle, last) refuses the batch
+			qsAll := []float64{math.NaN(), -1e-300, math.Nextafter(1, 2), math.Inf(1), -0.5, 2, 0, 1, 0.5, 0.25, 0.75, 0.999}
+			k := r.Range(2, 5)
+			parts := make([]string, k)
+			for j := range parts {
+				parts[j] = hexF(qsAll[6+r.Intn(6)]) // valid
+			}
+			if r.Bool(75) {
+				parts[r.Intn(k)] = hexF(qsAll[r.Intn(6)]) // one invalid, anywhere
+			}
+			sg.ensureValues(1)
+			sg.line("qs 1 %s", strings.Join(parts, " "))
+		}
 		if r.Bool(10) {
 			f := []float64{0, -1, -0.5, math.Inf(-1), 1, 2, 0.5}[r.Intn(7)]
 			sg.line("rew 1 %s", hexF(f))
